@@ -62,12 +62,13 @@ ParS(t, p) == IF p = Root THEN "root" ELSE IF BelowFile(t, p) THEN "belowfile"
 RelS(s, d) == IF s = d THEN "same" ELSE IF StrictUnder(s, d) THEN "srcInDst"
               ELSE IF StrictUnder(d, s) THEN "dstInSrc" ELSE "disjoint"
 \* effect summary: unchanged, the success effect, or the numbers of removed / added / altered paths
+Num(n) == IF n > 20 THEN "many" ELSE ToString(n)     \* runaway effects (a copy into itself) differ in size from run to run
 Eff(pre, post, outs) ==
   IF post = pre THEN "same"
   ELSE IF \E o \in outs : o.ok /\ o.t = post THEN "asSuccess"
-  ELSE "-" \o ToString(Cardinality(DOMAIN pre \ DOMAIN post))
-       \o "+" \o ToString(Cardinality(DOMAIN post \ DOMAIN pre))
-       \o "~" \o ToString(Cardinality({p \in DOMAIN pre \cap DOMAIN post : pre[p] # post[p]}))
+  ELSE "-" \o Num(Cardinality(DOMAIN pre \ DOMAIN post))
+       \o "+" \o Num(Cardinality(DOMAIN post \ DOMAIN pre))
+       \o "~" \o Num(Cardinality({p \in DOMAIN pre \cap DOMAIN post : pre[p] # post[p]}))
 
 Sig(pre, r, st, post) ==
   LET p == Normalize(r.p)
